@@ -24,7 +24,7 @@ pub fn check() -> Check {
         rule: "G1: every line of length <= 10 (quick) / 11 (thorough) over {a, space, quote, backslash, dash, e-acute} tokenised by Tokens::new and compared with a reference grammar written from the property; \
                G2: random lines up to 200 chars over 1-4-byte characters; G3: round trip - random lists of 0-6 arbitrary NUL-free strings rendered fully or minimally quoted, with or without blanks after closing quotes, must tokenise back to exactly the list; \
                G4: the same lists typed through a whole Cli and read back by the handler (after `x --`, or as the whole line: name + classified arguments); renderings may leave the last quote open; \
-               G1b: every line of <= 8/9 symbols over {a, space, quote, U+00A0, U+3000} and over {a, space, quote, TAB, U+001F} (Unicode blanks and control characters are ordinary characters); G5: every line of <= 7/8 symbols over the first alphabet typed through the Cli and compared with the reference dispatch; G6: lines with 254..600 (thorough: also 65534..65537) tokens. \
+               G1b: every line of <= 8/9 symbols over {a, space, quote, U+00A0, U+3000} and over {a, space, quote, TAB, U+001F} (Unicode blanks and control characters are ordinary characters); G5: every line of <= 7/8 symbols over the first alphabet typed through the Cli and compared with the reference dispatch; G6: lines with 254..600 (thorough: also 65534..65537) tokens; G7: ten line shapes with blank runs, words, quoted tokens and escape runs of every length 0..300 (thorough 1100), every third also through the Cli. \
                Non-trivial = the line contains an empty quoted token, an escape, or a quote adjacent to another token; distinct by line content.",
         assumptions: &[
             "inside quotes a backslash followed by anything but quote or backslash, and a dangling final backslash, are left open by the property: on such lines (skipped_unspecified) the token boundaries and all other characters are still compared, the open escape may yield c or backslash-c (nothing or a backslash at the end of the line)",
@@ -382,6 +382,54 @@ fn run_shard(ctx: &ShardCtx) {
                 let _ = whole;
             }
         }
+    }
+
+    // G7: length sweeps - runs of N blanks, words and quoted tokens of N characters, N escapes, for every N up to 300
+    // (a tokeniser that works in blocks, or treats long runs specially, must agree at every length)
+    {
+        let max_n = ctx.tier.pick(300usize, 1100usize);
+        let mut swept = 0u64;
+        'sweep: for n in 0..=max_n {
+            idx += 1;
+            if !ctx.mine(idx) || ctx.failed() {
+                continue;
+            }
+            let b = " ".repeat(n);
+            let a = "a".repeat(n);
+            let lines = [
+                format!("x{}y", b),
+                format!("set{}led on", b),
+                format!("\"q\"{}r{}", b, b),
+                format!("{}\"b c\" d", a),
+                format!("send {}\"b c\" d", a),
+                format!("\"{} b\" c", a),
+                format!("{} \"\"{}z", a, b),
+                format!("\"{}\" t", "\\\"".repeat(n)),
+                format!("{} ж{}\"é {}\"", "é".repeat(n), b, a),
+                format!("-{} --{} -- -{}", a, a, a),
+            ];
+            for line in lines.iter() {
+                ctx.count_eval();
+                swept += 1;
+                match compare_line(line) {
+                    Ok(_) => {}
+                    Err((e, o)) => {
+                        ctx.fail(Failure::new("tokens-enum", json!({"line": line}), format!("tokens of {:?} (length sweep, n = {}): {}", line, n, e), o));
+                        break 'sweep;
+                    }
+                }
+                if line.len() < 2000 && n % 3 == 0 {
+                    ctx.count_eval();
+                    if let Err(f) = vmodel::engine::guarded(|| check_line_cli(line)).unwrap_or_else(|p| Err(Failure::new("tokens-cli", json!({"line": line}), "no panic", p))) {
+                        ctx.fail(f);
+                        break 'sweep;
+                    }
+                }
+            }
+            ctx.nontrivial_enum(|| json!({"length_sweep_n": n}));
+        }
+        ctx.class_n("length sweep lines", swept);
+        ctx.exhaustive(&format!("blank runs, words, quoted tokens and escape runs of every length 0..={}", max_n), !ctx.failed());
     }
 
     // G2
